@@ -19,5 +19,5 @@ for m in pkgutil.iter_modules(translator.__path__):
             print(f"[setup] translator {m.name}: {type(e).__name__}: {e}")
 core.write_coqproject()
 PY
-cd coq && timeout 3000 make -j16 -k --no-print-directory 2>&1 | grep -v "^COQC\|^COQDEP" | tail -20
+cd coq && timeout 7200 make -j16 -k --no-print-directory 2>&1 | grep -v "^COQC\|^COQDEP" | tail -20
 exit 0
